@@ -65,7 +65,11 @@ bool CronAlarm::initialize(const std::string &cron_expr_str)
 }
 
 bool CronAlarm::calculateNextLocalTimeSec(uint32_t curr_local_ts, uint32_t &next_local_ts) {
-  next_local_ts = cron_next(static_cast<cron_expr *>(sp_cron_expr_), curr_local_ts);
+  auto next_ts = cron_next(static_cast<cron_expr *>(sp_cron_expr_), curr_local_ts);
+  if (next_ts == static_cast<time_t>(-1))   //! CRON_INVALID_INSTANT，找不到匹配的时间点
+    return false;
+
+  next_local_ts = next_ts;
   return true;
 }
 
